@@ -10,7 +10,11 @@ CTX_FP = [(r"reply\.send", ["h_send"]),
 
 def queries(tier):
     k = 4 if tier == "quick" else 6
-    return [
+    ctx_units = ["mptcore/event/reply_deferrable.c", "mptcore/event/reply_set.c", "mptcore/message/message_id.c", "mptcore/misc/refcount.c"]
+    wide = Q("ctx_history_wide_id", "C12/ctx.c", units=ctx_units, harness_defines={"K": 3, "IDLEN": 6}, unwind_default=8,
+             unwind={"mpt_message_buf2id": 10, "mpt_message_id2buf": 10}, fp=CTX_FP, flags=["--memory-leak-check"],
+             bounds="histories of 3 operations, request id of 6 bytes (stored behind the 4 inline id bytes)", outside="see ctx_history")
+    return [wide,
         Q("id_codec", "C12/id.c", units=["mptcore/message/message_id.c"], unwind_default=14,
           bounds="id: all 2^64 values; header width 0..9", outside="widths above 9"),
         Q("ctx_history", "C12/ctx.c", units=["mptcore/event/reply_deferrable.c", "mptcore/event/reply_set.c",
